@@ -153,6 +153,12 @@ static void split_before_chunk(Chunk *pc)
       return;
    }
 
+   if (prev->Is(CT_PREPROC))
+   {
+      // '#' + backslash-newline + 'define': the directive is not recognised when the output is read again
+      return;
+   }
+
    if (  !pc->IsNewline()
       && !prev->IsNewline())
    {
